@@ -476,7 +476,10 @@ class Interp:
             if base in self.libs:
                 o = self.libs[base]
                 for p in parts[k:]:
-                    o = getattr(o, p)
+                    try:
+                        o = getattr(o, p)
+                    except AttributeError:
+                        raise AnalysisError(f'import {target} (as {name}) in module {mod.name}: {base} has no model of `{".".join(parts[k:])}` in this domain')
                 return o
         # pure helpers of the standard library that only call back into the values they are given (operator.mul, functools.reduce, itertools.product, ...)
         if parts[0] in ('operator', 'functools', 'itertools', 'collections'):
